@@ -124,7 +124,12 @@ def run_one(p):
                     f.write(src)
             sys.path[:] = [os.path.join(root, d) for d in p.get("path", ["."])]
             sys.dont_write_bytecode = True
-        g = {"__name__": "__main__", "__builtins__": builtins}
+        # the program IS the __main__ module of its run: `import __main__` from
+        # any module yields its namespace
+        _mainmod = type(sys)("__main__")
+        g = _mainmod.__dict__
+        g["__builtins__"] = builtins
+        sys.modules["__main__"] = _mainmod
         try:
             code = compile(p["main"], "<main>", "exec", dont_inherit=True)
         except SyntaxError as e:
